@@ -45,6 +45,8 @@ func c04Kinds() []c04Kind {
 			[]string{"", "max=9007199254740992", "min=-9007199254740992", "min=9007199254740993", "max=9223372036854775806"}},
 		{"uint64", reflect.TypeOf(uint64(0)), []c04Val{{uint64(0), 0, false}, {uint64(math.MaxUint64), uint64(math.MaxUint64), false}, {uint64(math.MaxUint64 - 1), uint64(math.MaxUint64 - 1), false}, {uint64(9007199254740993), uint64(9007199254740993), false}},
 			[]string{"", "max=18446744073709551614", "min=18446744073709551615", "max=9007199254740992"}},
+		{"named string", reflect.TypeOf(MyStr("")), []c04Val{{MyStr(""), "", false}, {MyStr("s"), "s", false}}, []string{"", "required", "nonzero", "min=1"}},
+		{"interface{}", tIface, []c04Val{{nil, nil, true}, {"", "", false}, {"s", "s", false}}, []string{"", "required", "nonzero"}},
 		{"named uint16", reflect.TypeOf(MyU16(0)), []c04Val{{MyU16(0), 0, false}, {MyU16(2), 2, false}, {MyU16(5), 5, false}}, numTags},
 		{"named float32", reflect.TypeOf(MyF32(0)), []c04Val{{MyF32(0), 0.0, false}, {MyF32(2.5), 2.5, false}, {MyF32(-1.5), -1.5, false}}, numTags},
 		{"named int64", reflect.TypeOf(MyI64(0)), []c04Val{{MyI64(0), 0, false}, {MyI64(2), 2, false}, {MyI64(-1), -1, false}}, numTags},
@@ -300,7 +302,7 @@ func c04Space(name string, ctxs []c04Ctx) *core.Space {
 				// pre-fill the default
 				hasDefault := c.def >= 0
 				if hasDefault {
-					c04SetF(c.ctx, outer, reflect.ValueOf(k.Vals[c.def].Go), k.T)
+					c04SetF(c.ctx, outer, c04RV(k, k.Vals[c.def].Go), k.T)
 				}
 				// configuration
 				var cfgMap M
@@ -328,9 +330,9 @@ func c04Space(name string, ctxs []c04Ctx) *core.Space {
 				exists := true
 				switch {
 				case c.mode == cfgValue || c.mode == cfgRef:
-					expF = reflect.ValueOf(k.Vals[c.cfgVal].Go)
+					expF = c04RV(k, k.Vals[c.cfgVal].Go)
 				case hasDefault:
-					expF = reflect.ValueOf(k.Vals[c.def].Go)
+					expF = c04RV(k, k.Vals[c.def].Go)
 				case c.mode == cfgAbsentAll && c.ctx != ctxTop && c.ctx != ctxNested && c.ctx != ctxInline && c.ctx != ctxInlineNested && c.ctx != ctxArrayElem:
 					exists = false // no element / nil pointer: F does not exist in the result
 				default:
@@ -338,10 +340,13 @@ func c04Space(name string, ctxs []c04Ctx) *core.Space {
 				}
 				if (c.mode == cfgValue || c.mode == cfgRef) && hasDefault && (k.Name == "[]int" || k.Name == "map[string]int") {
 					// collections merge with the pre-filled value: keep to the union's emptiness
-					d := reflect.ValueOf(k.Vals[c.def].Go)
+					d := c04RV(k, k.Vals[c.def].Go)
 					if d.Len() > expF.Len() {
 						expF = d
 					}
+				}
+				if exists && !expF.IsValid() {
+					expF = reflect.Zero(k.T) // a nil interface value
 				}
 				predicted := false
 				which := ""
@@ -352,13 +357,13 @@ func c04Space(name string, ctxs []c04Ctx) *core.Space {
 					// the pre-filled element is kept next to the element from the configuration
 					cfgF := reflect.Zero(k.T)
 					if c.mode == cfgValue || c.mode == cfgRef {
-						cfgF = reflect.ValueOf(k.Vals[c.cfgVal].Go)
+						cfgF = c04RV(k, k.Vals[c.cfgVal].Go)
 					}
 					p1, w1 := valid.TagViolated(tag, cfgF)
-					p2, w2 := valid.TagViolated(tag, reflect.ValueOf(k.Vals[c.def].Go))
+					p2, w2 := valid.TagViolated(tag, c04RV(k, k.Vals[c.def].Go))
 					predicted, which = p1 || p2, w1+w2
 					if p2 && !p1 {
-						expF = reflect.ValueOf(k.Vals[c.def].Go)
+						expF = c04RV(k, k.Vals[c.def].Go)
 					}
 				}
 				uerr := cfg.Unpack(target.Interface(), opts...)
@@ -396,6 +401,14 @@ func c04Space(name string, ctxs []c04Ctx) *core.Space {
 			return res
 		},
 	}
+}
+
+// c04RV: reflect value of a menu value (a nil interface value becomes the zero value of the kind).
+func c04RV(k c04Kind, v interface{}) reflect.Value {
+	if v == nil {
+		return reflect.Zero(k.T)
+	}
+	return reflect.ValueOf(v)
 }
 
 func tagClass(tag string) string {
@@ -559,6 +572,25 @@ type dPorts map[string]vPtrInt
 
 func (p dPorts) InitDefaults() { p["fallback"] = 13 }
 
+// a primitive that unpacks itself, one that initialises itself
+type uInt int
+
+func (u *uInt) Unpack(v int64) error { *u = uInt(v); return nil }
+
+type uvInt int
+
+func (u *uvInt) Unpack(v int64) error { *u = uvInt(v); return nil }
+func (u *uvInt) Validate() error {
+	if *u == 13 {
+		return errors.New("13 is not allowed")
+	}
+	return nil
+}
+
+type iInt int
+
+func (i *iInt) InitDefaults() { *i = 2 }
+
 type c04CatCase struct {
 	Name    string
 	Target  func() interface{}
@@ -595,6 +627,23 @@ func c04Catalogue() *core.Space {
 			L []string `config:",inline" validate:"required"`
 		}
 	}
+	type U1 struct {
+		X uInt `validate:"min=5"`
+	}
+	type U2 struct{ X uvInt }
+	type U3 struct{ X *uvInt }
+	type I1 struct {
+		X iInt `validate:"min=5"`
+	}
+	type N1 struct{ Xs []vInt }
+	type N2 struct{ M map[string]vInt }
+	type N3 struct {
+		Xs []int `validate:"min=1"`
+	}
+	type IM1 struct {
+		M map[string]int `config:",inline" validate:"required"`
+	}
+	type IF1 struct{ X interface{} }
 	type P1 struct{ L []vPtrInt }
 	type P2 struct{ M map[string]vPtrInt }
 	type P3 struct{ A [2]vPtrInt }
@@ -651,6 +700,16 @@ func c04Catalogue() *core.Space {
 		{"inlined list with nonzero: pre-filled empty list, empty config", func() interface{} { return &IL2{L: []int{}} }, M{}, true},
 		{"inlined list with nonzero: entries present", func() interface{} { return &IL2{} }, L{3}, false},
 		{"inlined list with required, nested: object without entries", func() interface{} { return &IL3{} }, M{"n": M{"x": 1}}, true},
+		{"self-unpacking primitive with a tag validator: config value violates it", func() interface{} { return &U1{} }, M{"x": 3}, true},
+		{"self-unpacking primitive with a tag validator: valid", func() interface{} { return &U1{} }, M{"x": 7}, false},
+		{"self-unpacking primitive with Validate (value field): rejected value", func() interface{} { return &U2{} }, M{"x": 13}, true},
+		{"self-unpacking primitive with Validate (pointer field): rejected value", func() interface{} { return &U3{} }, M{"x": 13}, true},
+		{"primitive with InitDefaults and a tag validator, absent from the config", func() interface{} { return &I1{} }, M{"y": 1}, true},
+		{"explicit null element of a list of validating elements", func() interface{} { return &N1{} }, M{"xs": L{1, 13}}, true},
+		{"explicit null entry of a map of validating elements (zero is fine for vInt)", func() interface{} { return &N2{} }, M{"m": M{"a": nil}}, false},
+		{"inlined map with required: empty config", func() interface{} { return &IM1{} }, M{}, true},
+		{"interface{} field pre-filled with a struct whose Validate fails, absent from the config", func() interface{} { return &IF1{X: vStruct{13}} }, M{"y": 1}, true},
+		{"interface{} field pre-filled with a pointer to a struct whose Validate fails", func() interface{} { return &IF1{X: &vPtrStruct{13}} }, M{"y": 1}, true},
 		{"pointer-receiver Validate: field from config rejected", func() interface{} { return &P5{} }, M{"x": 13}, true},
 		{"pointer-receiver Validate: pre-filled field rejected", func() interface{} { return &P5{X: 13} }, M{"y": 1}, true},
 		{"pointer-receiver Validate: slice element from config rejected", func() interface{} { return &P1{} }, M{"l": L{1, 13}}, true},
@@ -682,12 +741,12 @@ func c04Catalogue() *core.Space {
 				uerr := cfg.Unpack(t)
 				if uerr == nil {
 					if v := valid.Check(reflect.ValueOf(t), "validate"); v != nil {
-						res = core.Fail("catalogue", "INVALID-RESULT-ACCEPTED catalogue", fmt.Sprintf("%s: Unpack returned nil, result %+v violates: %s", c.Name, reflect.ValueOf(t).Elem().Interface(), v))
+						res = core.Fail("catalogue", "INVALID-RESULT-ACCEPTED catalogue: "+c.Name, fmt.Sprintf("%s: Unpack returned nil, result %+v violates: %s", c.Name, reflect.ValueOf(t).Elem().Interface(), v))
 						return
 					}
 				}
 				if c.WantErr != (uerr != nil) {
-					res = core.Fail("catalogue", "CATALOGUE-EXPECTATION", fmt.Sprintf("%s: expected error=%v, Unpack returned %v", c.Name, c.WantErr, uerr))
+					res = core.Fail("catalogue", "CATALOGUE-EXPECTATION: "+c.Name, fmt.Sprintf("%s: expected error=%v, Unpack returned %v", c.Name, c.WantErr, uerr))
 					return
 				}
 				res.Nontrivial = true
